@@ -621,18 +621,10 @@ class Gen:
             else:
                 if dflt is not None and r.random() < 0.5:
                     continue
-                # at most one named argument may have side effects: grass evaluates named
-                # arguments in interning order (finding N1), Sass in source order
-                e = self.expr(sc, ty, d - 1, pure or effectful_named)
-                if has_user_call(e):
-                    effectful_named = True
-                named.append((n, e))
+                # named arguments are evaluated in source order (N1 was repaired): any number of
+                # them may have side effects or read state
+                named.append((n, self.expr(sc, ty, d - 1, pure)))
                 self.features.add("named-arg")
-        if named and any(has_user_call(e) for _, e in named):
-            # grass evaluates named arguments in interning order (finding N1), Sass in source order:
-            # when one named argument has side effects, the others must not depend on any state
-            named = [(n, e if has_user_call(e) else (self.lit(ptypes.get(n, "num")) if has_var(e) else e))
-                     for n, e in named]
         if named:
             r.shuffle(named)
         rest_e = None
